@@ -3,12 +3,15 @@
 (* Input family for C09: every text content of length <= MaxLen over an    *)
 (* alphabet chosen to hit the terminator rules ("$", the two characters of *)
 (* "\0" separately, an ordinary letter, a multi-byte letter written as the *)
-(* harness's ASCII escape), and the string types.                          *)
+(* harness's ASCII escape, a line break inside the literal), and the       *)
+(* string types.                                                           *)
 (***************************************************************************)
 EXTENDS Naturals, Sequences, FiniteSets, TLC, Json, SequencesExt
 CONSTANT MaxLen
 
-Alphabet == {"$", "\\", "0", "a", "\\n", "E"}     \* "E" is replaced by a multi-byte letter by the harness
+Alphabet == {"$", "\\", "0", "a", "\\n", "E", "N", "H"}     \* "E" is replaced by a multi-byte letter by the harness,
+                                                    \* "N" by a real line break inside the quotes (multi-line literal),
+                                                    \* "H" by a comment opener ("#" or "//"), which is text inside quotes
 Types    == {"", "ascii", "braille", "custom"}
 
 RECURSIVE Strs(_)
